@@ -16,7 +16,7 @@ TRUSTED = ['correspondence harness (pv.engine, pv.proto, pv.props._w5ts) and gen
 ASSUMPTIONS = ['pandas: Index.intersection/union of sorted DatetimeIndexes are the sorted set operations; reindex(index) is a lookup; '
                'reindex(index, method=ffill|bfill) of a NaN-free sorted object is the as-of / next-observation lookup (reference functions of PygModel/Align.lean, sampled)',
                'indices are sorted and duplicate-free; explicit indices likewise; limit=None; method lists, numeric / other fill methods go through the C12 model and are not generated here',
-               'nested tuples are not generated (_list does not descend into tuples - outside the statement, which speaks of nested lists/dicts); dict keys never equal "index"',
+               'nested tuples (_list does not descend into them: members reindexed, not counted for the joint index) are outside the statement (nested lists/dicts) and generated only lightly, against the model; dict keys never equal "index"',
                'the ORDER of the columns after column alignment is not compared (a set in the statement); 2-d arrays and arrays mixed with pandas objects (ValueError) are sampled only lightly',
                'float values are exact multiples of 1/4']
 S = 4
@@ -151,6 +151,11 @@ def wrap(rng, members, shape):
         inner = inner if rng.random() < 0.5 else {k: v for k, v in zip('xyzw', inner)}
         rest = items[cut:]
         return [inner] + rest if rng.random() < 0.5 else {'n': inner, **{k: v for k, v in zip('pqrs', rest)}}
+    if shape == 'nested-tuple':
+        # a tuple BELOW the top level: `_list` does not open it, so its members are reindexed but do not contribute to the joint
+        # index (outside the statement, which speaks of nested lists / dicts; the model follows the code here)
+        cut = rng.randint(1, max(1, len(items) - 1))
+        return [tuple(items[:cut])] + items[cut:]
     # nested3
     a, b = items[:1], items[1:]
     cut = rng.randint(0, len(b))
@@ -162,7 +167,7 @@ def generate(rng, tier):
     for _ in range(n):
         with_frames = rng.random() < 0.35
         members, rel = rand_members(rng, with_frames)
-        shape = rng.choice(['flat-list', 'flat-list', 'flat-list-pure', 'flat-tuple', 'flat-dict', 'nested2', 'nested2', 'nested3'])
+        shape = rng.choice(['flat-list', 'flat-list', 'flat-list-pure', 'flat-tuple', 'flat-dict', 'nested2', 'nested2', 'nested3'] * 3 + ['nested-tuple'])
         tree = wrap(rng, members, shape)
         how, m = rng.choice(HOWS), rng.choice(METHODS)
         r = rng.random()
